@@ -391,6 +391,23 @@ def cascade_case(ctx, scen, i):
         lines += ['iter m0 keys', 'stats m0', 'len m0', 'closeall', 'snap db']
         pair(ctx, 'cascade', i, lines, files_oracle=True, op_timeout=60)
         return
+    if i % 4 == 1:
+        # a moved key record lands BELOW its old place: key slots of the next size class are freed at low offsets first (early keys,
+        # deleted later), so that a record that outgrows its slot is re-written into one of them - by an overwrite (put path) and by
+        # a delete that re-links its predecessor (delete path); the chain must be re-linked to the LOWER offset as well
+        kt, base = ('string', 0xC1) if i % 8 == 1 else ('bytes', 65)
+        cls = r.choice([(10, 16, 18), (18, 24, 26), (26, 32, 42)])           # (exact-fit key length in a chain, its class, a key length of the next class)
+        early = [bytes([base + 20 + j]) * cls[2] for j in range(3)]
+        chain = [bytes([base + j]) * (cls[0] + 1 if j == 0 else cls[0]) for j in range(r.randrange(3, 6))]
+        lines = ['db d0 db', 'map m0 d0 %s m B1' % kt] + ['put m0 %s 01' % k.hex() for k in early] + ['put m0 %s z3x%d' % (k.hex(), j) for j, k in enumerate(chain)]
+        lines += ['put m0 z17000x7 z17000x9'] + ['del m0 %s' % k.hex() for k in early]
+        order = list(range(len(chain)))
+        r.shuffle(order)
+        for j in order[:3]:
+            lines += ['put m0 %s z%dx%d' % (chain[j].hex(), r.choice([100, 300]), j)] + ['get m0 %s' % k.hex() for k in chain] + ['len m0']
+        lines += ['del m0 %s' % chain[order[-1]].hex()] + ['get m0 %s' % k.hex() for k in chain] + ['len m0', 'iter m0 iter', 'stats m0', 'closeall', 'snap db']
+        pair(ctx, 'cascade', i, lines, files_oracle=True, op_timeout=60)
+        return
     nk = r.randrange(2, 6)
     # every other case on a STRING-keyed map whose keys are not valid UTF-8 (a key record that moves is read into the key type and
     # written back: the bytes must survive that round trip whatever they are)
@@ -1273,6 +1290,18 @@ def scen_C07(ctx):
         if a != b:
             # the model's copy of the load-factor rule differs: reported, not a condition (DESIGN.md C07)
             ctx.distribution.setdefault('buckets_rule_differs', {})[a] = 1
+    # tables whose FILE outgrows one 128 KiB chunk (16384 .. 65536 buckets) under every buffer kind of the table file: the first
+    # access beyond the first chunk happens at creation (the last word of the file) and at any bucket beyond it afterwards
+    def bigtable(i):
+        g = G.G(ctx.seed, 'C07big', i)
+        n = [16384, 65536, 32768][i % 3]
+        hb = ['HA', 'HS0', 'HP1000', 'HA', 'HS262144'][i % 5]
+        kt = G.KTS[i % 5]
+        ks = g.key_universe(kt, 12)
+        lines = ['db d0 db', 'map m0 d0 %s m B%d,VA,KA,%s' % (kt, n, hb)] + g.hist(kt, 40, keys=ks, big=0.0, reads=0.3) + ['len m0', 'iter m0 iter', 'closeall', 'snap db',
+                 'db d0 db', 'map m0 d0 %s m B8,VP1000,KP1000,%s' % (kt, ['HA', 'HS0'][i % 2])] + ['get m0 %s' % G.hx(k) for k in ks] + ['put m0 %s 0707' % G.hx(ks[0]), 'len m0', 'closeall', 'snap db']
+        pair(ctx, 'big_table', i, lines, op_timeout=120)
+    parallel(bigtable, range(ctx.scale(5, 20)), workers=5)
     io_traces(ctx, ctx.scale(8, 60), ctx.scale(3, 12), 0, 0)
     # L_cache: the model of the buffer cache (Cache.v, proved transparent for >= 2 chunks) against the real rabuf
     import scen_cache as SC
